@@ -1,7 +1,7 @@
 """Per-property configuration of the runner: which harness streams feed the
 violation search / correspondence, with which budgets."""
 
-HOOK_COMMITS = ["f4219a2", "c408641", "a451f59", "6111423", "e993c2a", "6be90ee"]
+HOOK_COMMITS = ["f4219a2", "c408641", "a451f59", "6111423", "e993c2a", "6be90ee", "ae02581"]
 
 PROPS = {
     "C05": {
@@ -98,7 +98,7 @@ PROPS["C16"] = {
     "assumptions": [],
 }
 PROPS["C18"] = {
-    "streams": [{"name": "c18", "n_quick": 400, "n_thorough": 10000, "race": True}, {"name": "c18adm", "n_quick": 1200, "n_thorough": 30000}],
+    "streams": [{"name": "c18", "n_quick": 400, "n_thorough": 10000, "race": True}, {"name": "c18adm", "n_quick": 1200, "n_thorough": 30000}, {"name": "c18e2e", "n_quick": 240, "n_thorough": 4000}],
     "level_text": "Admission half (C18_admission_metrics'): for every request and oracle world, an evaluated pod request records exactly one enforce evaluation whose decision matches the response, an exempted request exactly one exemption and nothing else, a request failing at a call site one fatal error, ignored requests nothing, audit/warn denials iff reported. Recorder half: C18_get_exact / C18_counts (each series equals its number of recordings since the last reset), C18_exact_any_order (any permutation/interleaving of recordings gives the same counters), C18_reset, C18_bucket + C18_bucket_cardinality + C18_request_labels (policy_version is 'latest', 'future' or v1.k with k <= server minor: at most minor+3 values whatever labels users write). Real PrometheusRecorder in a fresh registry: record/reset histories gathered and compared; 16 goroutines x 4000 recordings with exact totals; adversarial versions up to v1.(2^40).",
     "level_note": "Trusted: Coq kernel; Model/Metrics.v (the CachedInc fast path and the slow path are one increment in the model; the correspondence covers cached and uncached label tuples); prometheus counter internals and the RWMutex are runtime. No axioms.",
     "partial": "atomicity of prometheus counters and of the RWMutex-guarded cache is runtime: observed under -race and by exact totals",
